@@ -2,7 +2,7 @@
 # usage: seed_recheck.sh <seed-id> [check ids] - applies /tmp/seed-<id>/SEED/patch.diff in its scratch worktree and runs the check(s) against that tree
 id=$1; shift; checks=${@:-${id:0:3}}
 W=/tmp/seed-$id; S=$W/SEED; WD=/tmp/evalwork-$id
-mv $S /tmp/SEED-$id-tmp; git -C $W checkout -q -- .; git -C $W apply /tmp/SEED-$id-tmp/patch.diff || exit 1
+mv $S /tmp/SEED-$id-tmp; git -C $W checkout -q -- .; git -C $W clean -fdq; git -C $W apply /tmp/SEED-$id-tmp/patch.diff || exit 1
 mkdir -p $WD/evidence
 for sd in ${SEEDS:-1}; do for c in $checks; do echo -n "   seed=$sd ./check $c: "; VERIF_SEED=$sd VERIF_REPO=$W VERIF_WORKDIR=$WD VERIF_EVIDENCE_DIR=$WD/evidence /verif/check $c 2>&1 | grep -E "^(OK|VIOLATION|INFRA)|violation key" | sed "s|$WD/found/||" | head -4 | cut -c1-170 | tr '\n' '|'; echo; done; done
-git -C $W checkout -q -- .; mv /tmp/SEED-$id-tmp $S; rm -rf $WD
+git -C $W checkout -q -- .; git -C $W clean -fdq; mv /tmp/SEED-$id-tmp $S; rm -rf $WD
